@@ -66,6 +66,23 @@ type c03Case struct {
 	Retire int   `json:"retire"` // 0 = ascending, 1 = descending retire order
 	Prefix []int `json:"prefix,omitempty"`
 	Bound  int   `json:"bound"` // preemption bound, -1 unbounded
+	// FaultClient/FaultK: the FaultK-th visible request (LIST, anything under root/) of that client is answered
+	// with a service error that is not "no such key" and has no effect; every interleaving is still explored.
+	// The faulted client's open may fail; if it succeeds every oracle applies to it.
+	FaultClient string `json:"fault_client,omitempty"`
+	FaultK      int    `json:"fault_k,omitempty"`
+}
+
+// c03Faults: which (scenario, client, number of fault positions) get the interleaving x single-fault product.
+func c03Faults(thorough bool) map[int]map[string]int {
+	m := map[int]map[string]int{0: {"r": 4}} // S1: the read-only opener
+	if thorough {
+		m[0] = map[string]int{"r": 4, "w": 8}
+		m[1] = map[string]int{"o": 6} // S2: the read-write opener
+		m[3] = map[string]int{"f": 4} // S4: the refreshing connection
+		m[2] = map[string]int{"r": 4} // S3: reader next to a merging open
+	}
+	return m
 }
 
 func init() {
@@ -99,8 +116,14 @@ func c03Run(r *engine.Run) int {
 				bound = -2 // iterative preemption bounding under a time budget
 			}
 			cases = append(cases, engine.J(c03Case{Scen: i, Retire: o, Bound: bound}))
+			for cl, n := range c03Faults(r.Thorough())[i] {
+				for k := 0; k < n; k++ {
+					cases = append(cases, engine.J(c03Case{Scen: i, Retire: o, Bound: bound, FaultClient: cl, FaultK: k + 1}))
+				}
+			}
 		}
 	}
+	r.Bounds["interleaving_x_single_fault"] = fmt.Sprint(c03Faults(r.Thorough()))
 	engine.CaseTimeout = 45 * time.Minute // these cases run a whole schedule search under their own time budget
 	engine.Map("c03", cases, func(i int, c json.RawMessage, res *engine.Result) {
 		r.Add("c03", c, res)
@@ -193,10 +216,12 @@ func c03Worker(raw json.RawMessage) *engine.Result {
 
 // shared per execution
 type c03Exec struct {
-	acked []int
-	obs   []c03Obs
-	final []int
-	ferr  string
+	faulted string // client whose request may fail
+	fired   string // the request that failed
+	acked   []int
+	obs     []c03Obs
+	final   []int
+	ferr    string
 }
 
 func c03Build(sc c03Scen, c c03Case, choices []int) *engine.Sched {
@@ -237,6 +262,21 @@ func c03Build(sc c03Scen, c c03Case, choices []int) *engine.Sched {
 	}
 	ex := &c03Exec{}
 	s := &engine.Sched{W: w, Choices: choices}
+	if c.FaultClient != "" {
+		n := 0
+		w.Handle(c.FaultClient).Fault = func(rq *engine.Req) (engine.FaultMode, error) {
+			if !engine.DefaultVisible(rq) {
+				return engine.FaultNone, nil
+			}
+			n++
+			if n == c.FaultK {
+				ex.fired = rq.Op + " " + rq.Key
+				return engine.FailBefore, engine.ErrAWS500()
+			}
+			return engine.FaultNone, nil
+		}
+		ex.faulted = c.FaultClient
+	}
 	s.OracleState = func() string {
 		var parts []string
 		for _, o := range ex.obs {
@@ -346,6 +386,9 @@ func c03Check(sc c03Scen, s *engine.Sched, res *engine.Result, outcomes map[stri
 	delete(c03Execs, s)
 	trace := func() string { return strings.Join(s.Labels, "\n    ") }
 	where := sc.Name
+	if ex.faulted != "" {
+		where += fmt.Sprintf("; one request of %s fails with a 500: %q", ex.faulted, ex.fired)
+	}
 	if s.Deadlock {
 		res.Violate("deadlock", "no client can make progress [%s]\n    %s", where, trace())
 		return
@@ -374,6 +417,9 @@ func c03Check(sc c03Scen, s *engine.Sched, res *engine.Result, outcomes map[stri
 	var vec []string
 	for _, o := range ex.obs {
 		vec = append(vec, fmt.Sprintf("%s%v", o.Client, o.Rows))
+		if o.Err != "" && o.Client == ex.faulted && ex.fired != "" {
+			continue // a request of this client failed: an error is the right answer
+		}
 		if o.Err != "" {
 			res.Violate("open-or-select-fails", "client %s: %s [%s]\n    %s", o.Client, o.Err, where, trace())
 			continue
@@ -467,5 +513,8 @@ func c03Check(sc c03Scen, s *engine.Sched, res *engine.Result, outcomes map[stri
 		res.Violate("store-invariant", "%v [%s]", w.B.Broken, where)
 	}
 	sort.Strings(vec)
+	if ex.fired != "" {
+		vec = append(vec, "fault@"+strings.Fields(ex.fired)[0])
+	}
 	outcomes[strings.Join(vec, " ")] = true
 }
